@@ -63,6 +63,13 @@ def _negated(values: np.ndarray) -> np.ndarray:
     return -1 * values
 
 
+def _python_scalar(other):
+    """Numpy scalars (np.int64, np.float32, np.bool_, ...) as the Python number they hold."""
+    if isinstance(other, np.generic) and not isinstance(other, (float, int)):
+        return other.item()
+    return other
+
+
 class sptensor:
     """
     SPTENSOR Class for sparse tensors.
@@ -1060,6 +1067,7 @@ class sptensor:
         [0, 0] = 1.0
         [1, 1] = 1.0
         """
+        other = _python_scalar(other)
         # Explicitly stored zeros denote zeros: work on the entries that are nonzero
         self = self._drop_explicit_zeros()
         if isinstance(other, sptensor):
@@ -1185,6 +1193,7 @@ class sptensor:
         [[1. 1.]
          [1. 1.]]
         """
+        other = _python_scalar(other)
         # Explicitly stored zeros denote zeros: work on the entries that are nonzero
         self = self._drop_explicit_zeros()
         if isinstance(other, sptensor):
@@ -1263,6 +1272,7 @@ class sptensor:
         [[0. 1.]
          [1. 0.]]
         """
+        other = _python_scalar(other)
         # Explicitly stored zeros denote zeros: work on the entries that are nonzero
         self = self._drop_explicit_zeros()
         if isinstance(other, sptensor):
@@ -2740,6 +2750,7 @@ class sptensor:
         sparse tensor of shape (2, 2) with 1 nonzeros and order F
         [1, 1] = 1.0
         """
+        other = _python_scalar(other)
         # Explicitly stored zeros denote zeros: work on the entries that are nonzero
         self = self._drop_explicit_zeros()
         if isinstance(other, sptensor):
@@ -2847,6 +2858,7 @@ class sptensor:
         [0, 1] = 1.0
         [1, 0] = 1.0
         """
+        other = _python_scalar(other)
         # Explicitly stored zeros denote zeros: work on the entries that are nonzero
         self = self._drop_explicit_zeros()
         if isinstance(other, sptensor):
@@ -2963,6 +2975,7 @@ class sptensor:
         [[-1. -1.]
          [-1.  0.]]
         """
+        other = _python_scalar(other)
         # Case 1: One argument is a scalar
         # Emulating the sparse matrix case here, which creates and returns
         # a dense result, even if the scalar is zero.
@@ -3014,6 +3027,7 @@ class sptensor:
         [[1. 1.]
          [1. 2.]]
         """
+        other = _python_scalar(other)
         # If other is sumtensor perform sumtensor add
         if isinstance(other, ttb.sumtensor):
             return other.__add__(self)
@@ -3091,6 +3105,7 @@ class sptensor:
         >>> S * S2
         empty sparse tensor of shape (2, 2) with order F
         """
+        other = _python_scalar(other)
         if isinstance(other, (float, int, np.number)):
             return ttb.sptensor(self.subs, self.vals * other, self.shape)
 
@@ -3153,6 +3168,7 @@ class sptensor:
         sparse tensor of shape (2, 2) with 1 nonzeros and order F
         [1, 1] = 3.0
         """
+        other = _python_scalar(other)
         if isinstance(other, (float, int, np.number)):
             return self.__mul__(other)
         assert False, "This object cannot be multiplied by sptensor"
@@ -3170,6 +3186,7 @@ class sptensor:
         include_zero:
             Whether or not to treat matching zeros as true.
         """
+        other = _python_scalar(other)
         # Explicitly stored zeros denote zeros: work on the entries that are nonzero
         self = self._drop_explicit_zeros()
         if isinstance(other, sptensor):
@@ -3421,6 +3438,7 @@ class sptensor:
         sparse tensor of shape (2, 2) with 1 nonzeros and order F
         [1, 1] = 0.66666...
         """
+        other = _python_scalar(other)
         # Explicitly stored zeros denote zeros: pair the entries that are nonzero
         if isinstance(other, sptensor):
             self = self._drop_explicit_zeros()
@@ -3553,6 +3571,7 @@ class sptensor:
         [[0.5 0.5]
          [0.5 0.5]]
         """
+        other = _python_scalar(other)
         # Scalar divided by a tensor -> result is dense
         if isinstance(other, (float, int)):
             return other / self.full()
